@@ -1564,6 +1564,12 @@ func (e *Entry) dup() *Entry {
 		}
 	}
 
+	// So can the default values: copies must not share the backing array,
+	// or appending a default to one instance writes into the others.
+	if e.Default != nil {
+		ne.Default = append([]string{}, e.Default...)
+	}
+
 	// The list attributes can be changed per instance (by a deviation).
 	if e.ListAttr != nil {
 		la := *e.ListAttr
